@@ -25,6 +25,7 @@ type Config struct {
 	Patterns  []string          // package patterns
 	Overlay   map[string][]byte // path -> content
 	Env       []string
+	BuildTags string
 	Solver    string
 	TimeoutMs int
 	Limits    limits
@@ -56,6 +57,9 @@ func Load(cfg *Config) (*Program, error) {
 		Dir:     cfg.Dir,
 		Overlay: cfg.Overlay,
 		Env:     append(os.Environ(), cfg.Env...),
+	}
+	if cfg.BuildTags != "" {
+		pc.BuildFlags = []string{"-tags=" + cfg.BuildTags}
 	}
 	initial, err := packages.Load(pc, cfg.Patterns...)
 	if err != nil {
@@ -418,6 +422,9 @@ func (p *Program) runPath(sv *solver, pkgPath string, fn *ssa.Function, prefix [
 			i.sched.kill()
 		}
 		pr.Decisions = len(ps.decisions)
+		if pr.Status == "unsupported" && os.Getenv("GOSYM_DEBUG_UNSUPPORTED") != "" {
+			fmt.Fprintf(os.Stderr, "gosym: unsupported path: %s\n  decisions: %+v\n  stack: %s\n", pr.Msg, ps.decisions, i.lastFault)
+		}
 		pr.Steps = ps.steps
 		pr.Asserts = ps.asserts
 		pr.Violations = ps.viols
